@@ -142,7 +142,20 @@ func newHashFilter(cl *dnsmsg.Cloner, ec *errColl, dir string, id filter.ID, hos
 	})
 }
 
+// worldOpts selects the variants of the world: the cache middleware (ECS cache
+// by default; the "simple" dnsserver/cache middleware as cmd wires it for
+// cache.type=simple) and whether the filter storage is loaded with index rule
+// lists (with result caches) and two extra profiles that share one of them.
+type worldOpts struct {
+	simpleCache bool
+	ruleLists   bool
+}
+
 func newWorld(dir string, yield func(), ups *upstreamFn) (*world, error) {
+	return newWorldWith(dir, yield, ups, worldOpts{})
+}
+
+func newWorldWith(dir string, yield func(), ups *upstreamFn, wo worldOpts) (*world, error) {
 	w := &world{servers: map[string]*agd.Server{}, groups: map[string]*agd.ServerGroup{}, locals: map[string]netip.AddrPort{}, fltErrs: &errColl{}, ups: ups}
 	if err := os.MkdirAll(dir, 0o755); err != nil {
 		return nil, err
@@ -169,6 +182,19 @@ func newWorld(dir string, yield func(), ups *upstreamFn) (*world, error) {
 	})
 	if err != nil {
 		return nil, fmt.Errorf("filterstorage: %w", err)
+	}
+	if wo.ruleLists {
+		if err = writeRuleLists(dir); err != nil {
+			return nil, fmt.Errorf("writing rule lists: %w", err)
+		}
+		if err = fs.RefreshInitial(context.Background()); err != nil {
+			return nil, fmt.Errorf("filterstorage initial refresh: %w", err)
+		}
+		for _, id := range []filter.ID{"fl_common", "fl_allow_a", "fl_extra_a", "fl_extra_b"} {
+			if !fs.HasListID(id) {
+				return nil, fmt.Errorf("rule list %s was not loaded", id)
+			}
+		}
 	}
 
 	mk := func(name string, proto agd.Protocol, addr string, linked bool) {
@@ -223,8 +249,15 @@ func newWorld(dir string, yield func(), ups *upstreamFn) (*world, error) {
 		geo.SetSubnet(c, 0, 6, netip.PrefixFrom(netip.AddrFrom16(a), 56))
 	}
 
+	if wo.ruleLists {
+		addRuleListProfiles(db)
+	}
+	cacheConf := &dnssvc.CacheConfig{Type: dnssvc.CacheTypeECS, ECSCount: 100000, NoECSCount: 100000}
+	if wo.simpleCache {
+		cacheConf = &dnssvc.CacheConfig{Type: dnssvc.CacheTypeSimple, NoECSCount: 100000}
+	}
 	st, err := stack.New(&stack.Options{
-		Cache:  &dnssvc.CacheConfig{Type: dnssvc.CacheTypeECS, ECSCount: 100000, NoECSCount: 100000},
+		Cache:  cacheConf,
 		Cloner: cl, FilterStorage: fs, ProfileDB: db, GeoIP: geo, Upstream: ups.serve,
 		ServerGroups: []*agd.ServerGroup{w.groups["g"], w.groups["pub"]}, FilteringGroups: fgs, EDEEnabled: true, Yield: yield,
 	})
@@ -924,7 +957,9 @@ func runStackMonitor(t *testing.T, r *vkit.Run, httpsDefect bool) {
 		}
 	}
 	r.Extra("stack_upstream_max_hints", maxHints)
+	tp0 := time.Now()
 	runCachePopulation(r, scratch, maxHints)
+	r.Extra("stack_cachepop_phase_seconds", time.Since(tp0).Seconds())
 
 	rqs := requesters()
 	n := r.N(2000, 20000)
@@ -947,6 +982,13 @@ func runStackMonitor(t *testing.T, r *vkit.Run, httpsDefect bool) {
 			}
 		}
 	}
+
+	tp := time.Now()
+	runSimpleCacheRecycling(r, scratch, maxHints)
+	r.Extra("stack_simplecache_phase_seconds", time.Since(tp).Seconds())
+	tp = time.Now()
+	runSharedRuleList(r, scratch, maxHints, yield)
+	r.Extra("stack_rulelist_phase_seconds", time.Since(tp).Seconds())
 
 	upsA := &upstreamFn{maxHints: maxHints}
 	wA, err := newWorld(filepath.Join(scratch, "a"), nil, upsA)
